@@ -377,8 +377,26 @@ func (fx *fnExec) cellValue(c ssa.Value) SV {
 	}
 	saveR := fx.curR
 	fx.curR = tTrue
-	v := fx.freshSV(t, "cell_"+c.Name())
-	fx.wfValue(v)
+	// deterministic names: the same captured variable / global read lazily in two states denotes the same value
+	prefix := "fv$" + san(c.Name())
+	if _, isG := c.(*ssa.Global); isG {
+		prefix = fmt.Sprintf("gl%d$%s", fx.st.epoch, san(c.Name()))
+	}
+	v := fx.build(t, func(l leaf) Term {
+		n := prefix + san(l.suffix)
+		first := !fx.declared[n]
+		fx.declare(n, l.sort)
+		ct := Term{n, l.sort}
+		if first {
+			fx.rangeFact(ct, l)
+		}
+		return ct
+	})
+	if !fx.declared[prefix+"$wf"] {
+		fx.declared[prefix+"$wf"] = true
+		fx.wfValue(v)
+		fx.assumeAlive(v)
+	}
 	fx.curR = saveR
 	fx.st.cells[c] = v
 	if fx.entry != nil {
